@@ -85,15 +85,15 @@ def has_stem(name, tail):
 def case_lookup(prog, params):
     ex = new_ex(prog)
     nl = params['nlen']; cons = []
-    name = SymStr.fresh('nm', nl, cons, exact_len=nl, alphabet=[ord(c) for c in (params.get('alphabet') or 'abcxyz0123456789')])
+    name = SymStr.fresh('nm', nl, cons, exact_len=nl, alphabet=[ord(c) for c in (params.get('alphabet') or params.get('names') or 'abcxyz0123456789')])
     if params.get('alphabet'):
         f_ = name.flat(); cons.append(f_.bs[0] != 0x2e); cons.append(f_.bs[-1] != 0x2e)      # a dot inside the name, not a dot-file or a trailing dot
-    P = S('/').concat(name).concat(S('/' if params['slash'] else ''))
+    P = S('/d/' if params.get('sub') else '/').concat(name).concat(S('/' if params['slash'] else ''))
     target = P.concat(S(params['tail']))
     req = request('GET', target, [])
     st = State(); st.pc = list(cons)
     st.world['env'] = dict(CORS_ENV_ALLOW_ALL)
-    st.world['fs'] = ENV.new_fs(content_cap=2, shared_names=True)
+    st.world['fs'] = ENV.new_fs(content_cap=2, shared_names=True, symlinks=bool(params.get('symlinks')))
     res = {'violations': [], 'inconclusive': [], 'samples': [], 'kinds': {}, 'compared': 0, 'served': 0}
     root = S(ROOT)
     outs = run_entry(ex, st, req, 'execute')
@@ -119,6 +119,7 @@ def case_lookup(prog, params):
             eH = ent(root.concat(P).concat(S('.html')))
             c3 = z3.And(z3.Not(isfile(eP)), z3.Not(z3.And(isdir(eP), isfile(eI))), isfile(eH)); choices.append((c3, eH))
         none = z3.And([z3.Not(c) for c, _ in choices])
+        eD = ent(root.concat(S('/d'))) if params.get('sub') else None
         # a consistent tree: something inside P exists only if P is a directory
         pc = list(sc.pc) + [z3.Implies(eI.kind != ENV.K_ABSENT, isdir(eP))]
         inside = root.concat(P) if params['slash'] else root.concat(P).concat(S('/'))
@@ -127,6 +128,12 @@ def case_lookup(prog, params):
             sw = MODELS.match_at_general(e_.path, 0, inside)
             if sw is False: continue
             pc.append(z3.Implies(z3.And(zb(sw), e_.kind != ENV.K_ABSENT), isdir(eP)))
+        if params.get('sub'):
+            # everything under /r/d/ exists only if /r/d is a directory
+            for e_ in sc.world['fs']['entries']:
+                sw = MODELS.match_at_general(e_.path, 0, root.concat(S('/d/')))
+                if sw is False: continue
+                pc.append(z3.Implies(z3.And(zb(sw), e_.kind != ENV.K_ABSENT), isdir(eD)))
         res['compared'] += 1
         checks = []
         body = crl.items[0].fields[3] if len(crl.items) == 1 else None
@@ -139,11 +146,22 @@ def case_lookup(prog, params):
         for label, bad in checks:
             r, m = ex.check(pc, bad)
             if r == 'unknown': res['inconclusive'].append({'status': 'solver-unknown', 'error': label}); continue
+            needs_link = False
+            if r == 'sat' and params.get('symlinks'):
+                # prefer a witness without symbolic links (then it is one of the plain lookup shapes); only a violation that
+                # exists with links alone is reported as a symlink case
+                nolinks = [z3.Not(e_.link) for e_ in sc.world['fs']['entries'] if e_.link is not None]
+                r0, m0 = ex.check(pc + nolinks, bad)
+                if r0 == 'sat': m = m0
+                else: needs_link = True
             if r == 'sat':
-                fsd = [(model_bytes(m, e.path).decode('latin1'), m.eval(e.kind, model_completion=True).as_long(), model_bytes(m, e.content).hex()) for e in sc.world['fs']['entries']]
+                fsd = [(model_bytes(m, e.path).decode('latin1'), m.eval(e.kind, model_completion=True).as_long(), model_bytes(m, e.content).hex()) +
+                       (((model_bytes(m, e.target).decode('latin1'),) if z3.is_true(m.eval(e.link, model_completion=True)) else ()) if e.link is not None else ())
+                       for e in sc.world['fs']['entries']]
                 t = model_bytes(m, target).decode('latin1')
                 kn = {0: 'absent', 1: 'file', 2: 'dir'}
                 shape = 'P=%s,index=%s' % (kn[m.eval(eP.kind, model_completion=True).as_long()], kn[m.eval(eI.kind, model_completion=True).as_long()]) + ('' if params['slash'] else ',P.html=%s' % kn[m.eval(eH.kind, model_completion=True).as_long()])
+                if needs_link: shape += ',symlink'
                 res['violations'].append({'key': 'C02:lookup:%s:%s:%s' % (label, 'dir-target' if params['slash'] else 'plain-target', shape),
                                           'text': '%s for GET %r with files %r (status %s)' % (label, t, fsd, model_int(m, status)), 'witness': {'ob': 'lookup', 'target': t, 'fs': fsd, 'label': label}})
     res.update(H.ex_summary(ex)); res['samples'].append({'case': params, 'kinds': res['kinds'], 'terminal_states_compared': res['compared']})
@@ -162,7 +180,7 @@ def main():
     chk.extra['mime_table_entries_from_pinned_tests'] = len(table)
     lem = lemmas.lemma_filter_string(prog, 5); chk.extra['lemmas'] = [lem]
     if not lem['ok']: chk.inconclusive.append({'status': 'lemma-failed', 'error': str(lem)})
-    chk.assumptions = ['(a) names of 1-2 bytes from [abcxyz0-9], files <= 2 bytes, detect_mime_type uninterpreted in the lookup obligation; symlinks absent',
+    chk.assumptions = ['(a) names of 1-2 bytes from [abcxyz0-9], files <= 2 bytes, detect_mime_type uninterpreted in the lookup obligation; symbolic links: in the two symlink cases any probed path may be a link to a sibling name (1 byte from {a,b}), at the top level and inside a sub-directory; elsewhere absent',
                        '(c) names over [a-z0-9./]; a name whose last segment starts with the dot (".css") is not required to have a type; the table comes from src/mime_type/tests.rs',
                        'serialised Content-Length/Content-Type framing is decided in C05']
     cases = [dict(ob='mime', n=n) for n in ((1, 2, 3, 4, 5) if q else (1, 2, 3, 4, 5, 6, 7))]
@@ -174,6 +192,10 @@ def main():
                 cases.append(dict(ob='lookup', nlen=nl, slash=slash, tail=tail))
     for tail in ('', '?q'):
         cases.append(dict(ob='lookup', nlen=3, slash=False, tail=tail, alphabet='ab.'))
+    # symbolic links to sibling files, at the top level and inside a sub-directory
+    for sub in (False, True):
+        for slash in ((False,) if q else (False, True)):
+            cases.append(dict(ob='lookup', nlen=1, slash=slash, tail='', alphabet=None, symlinks=True, sub=sub, names='ab'))
     chk.bounds = {'mime name lengths': [c['n'] for c in cases if c['ob'] == 'mime' and not c.get('suffix')], 'lookup targets': [c for c in cases if c['ob'] == 'lookup']}
     results = chk.run_cases(case, cases, label='C02 obligations', case_timeout=1200)
     chk.extra['compared'] = sum(r.get('compared', 0) for r in results)
@@ -192,7 +214,8 @@ def main():
         # concrete reference on the tree as the replay actually materialises it (parents of existing entries are directories)
         import posixpath
         tree = {}
-        for p, k, c in w['fs']:
+        for ent_ in w['fs']:
+            p, k, c = ent_[0], ent_[1], ent_[2]
             if k == 0: continue
             tree[p.rstrip('/') or '/'] = (k, bytes.fromhex(c))
             d = posixpath.dirname(p.rstrip('/'))
